@@ -310,10 +310,6 @@ func (h *H) monitor() {
 		if sf := int(m.Successful() + m.Failed()); sf > ends {
 			h.viol("C17", "C17.outcome-over", fmt.Sprintf("Successful()+Failed()=%d exceeds the %d finished invocations", sf, ends))
 		}
-		// C18: pool-server threads never exceed the largest concurrency configured
-		if n := vrt.LiveLib("initPoolNode"); len(h.Ws) == 1 && n > w.maxLimitEver() {
-			h.viol("C18", "C18.poolsize", fmt.Sprintf("%d worker goroutines alive, largest concurrency configured %d", n, w.maxLimitEver()))
-		}
 	}
 	for _, jr := range h.Jobs {
 		if jr.St == nil {
@@ -377,6 +373,11 @@ func (h *H) sampleQuiet() {
 		}
 		if !h.NoRest {
 			h.restCounts(w)
+		}
+		// C18: at rest the worker keeps no more worker goroutines than the largest concurrency configured
+		// (a retired goroutine is alive until it has read its stop message, hence judged at rest only)
+		if n := vrt.LiveLib("initPoolNode"); len(h.Ws) == 1 && n > w.maxLimitEver() {
+			h.viol("C18", "C18.poolsize", "more worker goroutines are kept at rest than the largest concurrency configured")
 		}
 		if w.RefState != "Running" || h.ctlInProgress(w) {
 			continue
